@@ -111,12 +111,14 @@ def check_cases(ctx, cases):
         ctx.stat(f"kind={kind}")
         if kind == "nvar_run":
             ctx.stat(f"nvar k={c['delay']} n={c['order']} s={c['strides']} d={c['dim']}")
+            ctx.stat("nvar: more than 256 linear features" if c["delay"] * c["dim"] > 256 else "nvar: at most 256 linear features")
             nontriv = len(c["U_f"]) > c["strides"]
         elif kind == "delay_run":
             ctx.stat(f"delay d={c['delay']} init={c['init_f'] is not None}")
             nontriv = len(c["U_f"]) > c["delay"] >= 1
         else:
             ctx.stat(f"concat parts={len(c['parts_f'])}")
+            ctx.stat("concat: equal widths > 1" if len({len(p) for p in c["parts_f"]}) == 1 and len(c["parts_f"][0]) > 1 and len(c["parts_f"]) > 1 else "concat: other widths")
             nontriv = len(c["parts_f"]) >= 2
         ctx.count(c, nontrivial=nontriv, obligation=kind)
         if mo[0] != "ok":
@@ -171,6 +173,11 @@ def gen_cases(ctx):
                         cases.append({"kind": "nvar_run", "delay": delay, "order": order, "strides": strides,
                                       "dim": dim, "mode": g.choice(["run", "calls"]), "zero_rows": True,
                                       "U_f": [([0.0] * dim if g.chance(0.6) else g.dyvec(dim, nonzero=True)) for _ in range(T)]})
+    # wide windows: more linear features than fit in one byte / two bytes' worth of index arithmetic shortcuts
+    for dim, delay in ([(20, 13), (130, 2)] if not thorough else [(20, 13), (130, 2), (3, 90), (65, 4), (257, 1)]):
+        cases.append({"kind": "nvar_run", "delay": delay, "order": 2, "strides": g.randint(1, 2), "dim": dim,
+                      "mode": g.choice(["run", "calls"]), "wide": True,
+                      "U_f": [g.dyvec(dim, nonzero=True) for _ in range(g.randint(2, 3))]})
     for d in range(0, 6):
         for init in (False, True):
             if d == 0 and init:
@@ -189,12 +196,17 @@ def gen_cases(ctx):
     for _ in range(ctx.n(30, 200)):
         k = g.randint(1, 4)
         cases.append({"kind": "concat", "parts_f": [g.dyvec(g.randint(1, 4)) for _ in range(k)]})
+    # parts of one common width (a pool of equally sized senders), distinct values everywhere
+    for k in (2, 3, 4):
+        for w in (2, 3, 5):
+            cases.append({"kind": "concat", "equal_width": True,
+                          "parts_f": [[float(100 * i + j + 1) for j in range(w)] for i in range(k)]})
     return cases
 
 
 def run(ctx):
     ctx.notes["rule"] = ("NVAR: full grid dim<=3, delay<=4, strides<=3, order<=3 with random dyadic inputs, T<=12, "
-                         "run or successive calls; Delay: d<=5 with/without initial values; Concat: 1-4 parts. "
+                         "run or successive calls, plus windows of more than 256 linear features (order 2); Delay: d<=5 with/without initial values; Concat: 1-4 parts of random widths and 2-4 parts of one common width. "
                          "non-trivial = more steps than strides (NVAR) / than delay (Delay) / >=2 parts (Concat)")
     check_cases(ctx, gen_cases(ctx))
 
